@@ -13,4 +13,26 @@ namespace Romea.Hidden.C02
 
 theorem hidden_state_as_recorded : Romea.Generated.C02.hiddenState = [] := by rfl
 
+/-- The names (not only the types) of what every translated function reads, carries through its loops and returns are those
+    the bridge theorems were written against: a function that now reads or writes ANOTHER member of the same type keeps its Lean
+    type, and a positional application in a bridge would keep checking. -/
+theorem signatures_as_recorded : Romea.Generated.C02.signatures = [
+    "ENUConverter.ENUConverter () result: enu2ecef__0_0', enu2ecef__0_1', enu2ecef__0_2', enu2ecef__0_3', enu2ecef__1_0', enu2ecef__1_1', enu2ecef__1_2', enu2ecef__1_3', enu2ecef__2_0', enu2ecef__2_1', enu2ecef__2_2', enu2ecef__2_3', enu2ecef__3_0', enu2ecef__3_1', enu2ecef__3_2', enu2ecef__3_3', isAnchored_', wgs84Anchor__altitude', wgs84Anchor__latitude', wgs84Anchor__longitude'",
+    "ECEFConverter.toECEF (ellipsoid__a ellipsoid__e2 geodeticCoordinates_altitude geodeticCoordinates_latitude geodeticCoordinates_longitude) result: ret_0, ret_1, ret_2",
+    "ENUConverter.setAnchor (anchor_altitude anchor_latitude anchor_longitude ecefConverter__ellipsoid__a ecefConverter__ellipsoid__e2) result: enu2ecef__0_0', enu2ecef__0_1', enu2ecef__0_2', enu2ecef__0_3', enu2ecef__1_0', enu2ecef__1_1', enu2ecef__1_2', enu2ecef__1_3', enu2ecef__2_0', enu2ecef__2_1', enu2ecef__2_2', enu2ecef__2_3', isAnchored_', wgs84Anchor__altitude', wgs84Anchor__latitude', wgs84Anchor__longitude'",
+    "ENUConverter.reset () result: enu2ecef__0_0', enu2ecef__0_1', enu2ecef__0_2', enu2ecef__0_3', enu2ecef__1_0', enu2ecef__1_1', enu2ecef__1_2', enu2ecef__1_3', enu2ecef__2_0', enu2ecef__2_1', enu2ecef__2_2', enu2ecef__2_3', enu2ecef__3_0', enu2ecef__3_1', enu2ecef__3_2', enu2ecef__3_3', isAnchored_'",
+    "ENUConverter.isAnchored (isAnchored_) result: ret",
+    "ENUConverter.toECEF_v (enu2ecef__0_0 enu2ecef__0_1 enu2ecef__0_2 enu2ecef__0_3 enu2ecef__1_0 enu2ecef__1_1 enu2ecef__1_2 enu2ecef__1_3 enu2ecef__2_0 enu2ecef__2_1 enu2ecef__2_2 enu2ecef__2_3 enuPosition_0 enuPosition_1 enuPosition_2) result: ret_0, ret_1, ret_2",
+    "ENUConverter.toECEF_xyz (enu2ecef__0_0 enu2ecef__0_1 enu2ecef__0_2 enu2ecef__0_3 enu2ecef__1_0 enu2ecef__1_1 enu2ecef__1_2 enu2ecef__1_3 enu2ecef__2_0 enu2ecef__2_1 enu2ecef__2_2 enu2ecef__2_3 xNorth yEast zDown) result: ret_0, ret_1, ret_2",
+    "EPSILON (OfScientific.ofScientific 1 true 11)",
+    "makeGeodeticCoordinates (altitude latitude longitude) result: ret_altitude, ret_latitude, ret_longitude",
+    "ECEFConverter.toWGS84.loop1 (Z ellipsoid__a ellipsoid__e2 norm) carried: delta, latitude",
+    "ECEFConverter.toWGS84 (fuel ecefPosition_0 ecefPosition_1 ecefPosition_2 ellipsoid__a ellipsoid__e2) result: ret_altitude, ret_latitude, ret_longitude (none = fuel exhausted)",
+    "ENUConverter.toWGS84_v (fuel ecefConverter__ellipsoid__a ecefConverter__ellipsoid__e2 enu2ecef__0_0 enu2ecef__0_1 enu2ecef__0_2 enu2ecef__0_3 enu2ecef__1_0 enu2ecef__1_1 enu2ecef__1_2 enu2ecef__1_3 enu2ecef__2_0 enu2ecef__2_1 enu2ecef__2_2 enu2ecef__2_3 enuPosition_0 enuPosition_1 enuPosition_2) result: ret_altitude, ret_latitude, ret_longitude (none = fuel exhausted)",
+    "ENUConverter.toWGS84_xyz (fuel ecefConverter__ellipsoid__a ecefConverter__ellipsoid__e2 enu2ecef__0_0 enu2ecef__0_1 enu2ecef__0_2 enu2ecef__0_3 enu2ecef__1_0 enu2ecef__1_1 enu2ecef__1_2 enu2ecef__1_3 enu2ecef__2_0 enu2ecef__2_1 enu2ecef__2_2 enu2ecef__2_3 xNorth yEast zDown) result: ret_altitude, ret_latitude, ret_longitude (none = fuel exhausted)",
+    "ENUConverter.toENU_v (ecefCoordinates_0 ecefCoordinates_1 ecefCoordinates_2 enu2ecef__0_0 enu2ecef__0_1 enu2ecef__0_2 enu2ecef__0_3 enu2ecef__1_0 enu2ecef__1_1 enu2ecef__1_2 enu2ecef__1_3 enu2ecef__2_0 enu2ecef__2_1 enu2ecef__2_2 enu2ecef__2_3) result: ret_0, ret_1, ret_2",
+    "ENUConverter.toENU_geo (ecefConverter__ellipsoid__a ecefConverter__ellipsoid__e2 enu2ecef__0_0 enu2ecef__0_1 enu2ecef__0_2 enu2ecef__0_3 enu2ecef__1_0 enu2ecef__1_1 enu2ecef__1_2 enu2ecef__1_3 enu2ecef__2_0 enu2ecef__2_1 enu2ecef__2_2 enu2ecef__2_3 geodeticCoordinates_altitude geodeticCoordinates_latitude geodeticCoordinates_longitude isAnchored_ wgs84Anchor__altitude wgs84Anchor__latitude wgs84Anchor__longitude) result: ret_0, ret_1, ret_2, enu2ecef__0_0', enu2ecef__0_1', enu2ecef__0_2', enu2ecef__0_3', enu2ecef__1_0', enu2ecef__1_1', enu2ecef__1_2', enu2ecef__1_3', enu2ecef__2_0', enu2ecef__2_1', enu2ecef__2_2', enu2ecef__2_3', isAnchored_', wgs84Anchor__altitude', wgs84Anchor__latitude', wgs84Anchor__longitude'",
+    "makeGeodeticCoordinates_2 (altitude wgs84Coordinates_latitude wgs84Coordinates_longitude) result: ret_altitude, ret_latitude, ret_longitude",
+    "ENUConverter.toENU_wgs (ecefConverter__ellipsoid__a ecefConverter__ellipsoid__e2 enu2ecef__0_0 enu2ecef__0_1 enu2ecef__0_2 enu2ecef__0_3 enu2ecef__1_0 enu2ecef__1_1 enu2ecef__1_2 enu2ecef__1_3 enu2ecef__2_0 enu2ecef__2_1 enu2ecef__2_2 enu2ecef__2_3 isAnchored_ wgs84Anchor__altitude wgs84Anchor__latitude wgs84Anchor__longitude wgs84Coordinates_latitude wgs84Coordinates_longitude) result: ret_0, ret_1, ret_2, enu2ecef__0_0', enu2ecef__0_1', enu2ecef__0_2', enu2ecef__0_3', enu2ecef__1_0', enu2ecef__1_1', enu2ecef__1_2', enu2ecef__1_3', enu2ecef__2_0', enu2ecef__2_1', enu2ecef__2_2', enu2ecef__2_3', isAnchored_', wgs84Anchor__altitude', wgs84Anchor__latitude', wgs84Anchor__longitude'"] := by rfl
+
 end Romea.Hidden.C02
